@@ -136,6 +136,22 @@ def u_rejections(ip):
     ip.call(method(ip, p, "set_inputs"), [q], {})
     kind, r = try_call(ip, PyFn(lambda ip_: g.build(q), "build"), [])
     c.oblige("cyclic_graph_rejected", kind == "raise")
+    # the Model constructor used directly (grow=False: no automatic naming): two UNNAMED nodes / variables / a duplicated name next to distinct ones
+    Model = ip.repo(f"{M}::Model")
+    u1, u2 = ip.call(g.Value, [z3.Const("u1", U)], {}), ip.call(g.Value, [z3.Const("u2", U)], {})
+    top3 = g.calc("f3", u1, u2, name="top3")
+    kind, r = try_call(ip, Model, [[u1, u2, top3]], {"grow": False})
+    c.oblige("two_unnamed_nodes_rejected_by_the_constructor", kind == "raise" and r.cls == "RuntimeError")
+    n1 = ip.call(g.Value, [z3.Const("n1", U)], {"_name": "n1"})
+    d1, d2 = ip.call(g.Value, [z3.Const("d1", U)], {"_name": "d"}), ip.call(g.Value, [z3.Const("d2", U)], {"_name": "d"})
+    kind, r = try_call(ip, Model, [[n1, d1, d2]], {"grow": False})
+    c.oblige("duplicate_next_to_distinct_names_rejected_by_the_constructor", kind == "raise" and r.cls == "RuntimeError")
+    w1, w2 = ip.call(g.Var, [z3.Const("w1", U)], {}), ip.call(g.Var, [z3.Const("w2", U)], {})
+    for i_, w in enumerate((w1, w2)):
+        ip.setattr(w.f["_value_node"], "name", f"w{i_}_value")
+        ip.setattr(w.f["_var_value_node"], "name", f"w{i_}_var_value")
+    kind, r = try_call(ip, Model, [[w1, w2, w1.f["_value_node"], w2.f["_value_node"], w1.f["_var_value_node"], w2.f["_var_value_node"]]], {"grow": False})
+    c.oblige("two_unnamed_variables_rejected_by_the_constructor", kind == "raise" and r.cls == "RuntimeError")
 
 
 @unit("C15.frozen", "C15", [f"{N}::no_model_method", f"{N}::no_model_setter", f"{N}::Node.add_inputs", f"{N}::Node.set_inputs", f"{N}::Node.name.fset", f"{N}::Node.needs_seed.fset",
@@ -357,3 +373,10 @@ def u_groups(ip):
     ip.call(method(ip, gb, "add_groups"), [g1], {})
     kind, r = try_call(ip, method(ip, gb, "add_groups"), [g2])
     c.oblige("duplicate_group_name_rejected", kind == "raise" and r.cls == "RuntimeError")
+
+
+# "orders updates topologically" also for the TARGETED update (same harness as C01.model_update.n*)
+from contracts.c01 import model_update_unit  # noqa: E402
+
+for _n in (2, 3, 4):
+    model_update_unit(_n, uid=f"C15.update_order.n{_n}", prop="C15")
